@@ -126,29 +126,29 @@ func verifHarness_C15_getRoute() {
 	api := func(k int, path string) *Route {
 		switch k {
 		case 0:
-			return r.AddNamed("n", path, verifNop, "GET")
+			return r.AddNamed("userShow", path, verifNop, "GET")
 		case 1:
-			rt := NewNamedRoute("n", path, verifNop, "GET")
+			rt := NewNamedRoute("userShow", path, verifNop, "GET")
 			r.AddRoute(rt)
 			return rt
 		case 2:
 			rt := r.GET(path, verifNop)
-			rt.NamedTo("n", r)
+			rt.NamedTo("userShow", r)
 			return rt
 		}
-		rt := NamedRoute(" n ", path, verifNop)
+		rt := NamedRoute(" userShow ", path, verifNop)
 		rt.AttachTo(r)
 		return rt
 	}
 	first := api(verifChoice("first", 4), "/one")
-	verifAssert(r.GetRoute("n") == first, "GetRoute returns the named route")
+	verifAssert(r.GetRoute("userShow") == first, "GetRoute returns the named route")
 	second := api(verifChoice("second", 4), "/two/{v}")
-	verifAssert(r.GetRoute("n") == second, "GetRoute returns the route most recently registered under the name")
+	verifAssert(r.GetRoute("userShow") == second, "GetRoute returns the route most recently registered under the name")
 	// renaming the older route afterwards must not disturb the name's current owner
 	if verifChoice("renameFirst", 2) == 1 {
 		first.NamedTo("other", r)
 		verifAssert(r.GetRoute("other") == first, "a renamed route is found under its new name")
-		verifAssert(r.GetRoute("n") == second, "renaming an older route leaves the most recent registration under the name")
+		verifAssert(r.GetRoute("userShow") == second, "renaming an older route leaves the most recent registration under the name")
 	}
 	// A - B - A: the first route takes the name back; the most recent registration under the name wins again
 	if verifChoice("takeBack", 2) == 1 {
@@ -156,10 +156,10 @@ func verifHarness_C15_getRoute() {
 		if verifChoice("takeBackWho", 2) == 1 {
 			back = second
 		}
-		back.NamedTo("n", r)
-		verifAssert(r.GetRoute("n") == back, "a route that is (re-)named to a name owns it, also when it carried that name before")
+		back.NamedTo("userShow", r)
+		verifAssert(r.GetRoute("userShow") == back, "a route that is (re-)named to a name owns it, also when it carried that name before")
 		k := verifCatch(func() {
-			u := r.BuildURL("n", "{v}", "7")
+			u := r.BuildURL("userShow", "{v}", "7")
 			want := "/one"
 			if back == second {
 				want = "/two/7"
